@@ -39,6 +39,8 @@ pub const ALWAYS_DECISIVE: [&str; 4] = ["error", "panic", "abort", "hang"];
 
 fn p_c01() -> Profile {
     let mut p = Profile::base();
+    p.bulk_prelude = true;
+    p.leveled_focus = true;
     p.w[W_SNAP_OPEN] = 0;
     p
 }
@@ -59,6 +61,7 @@ fn p_c02() -> Profile {
 
 fn p_c03() -> Profile {
     let mut p = Profile::base();
+    p.w[W_INGEST] = 4;
     p.w[W_SCAN] = 25;
     p.w[W_PREFIX] = 10;
     p.w[W_SNAP_OPEN] = 4;
@@ -80,6 +83,7 @@ fn p_c04() -> Profile {
 
 fn p_c07() -> Profile {
     let mut p = Profile::base();
+    p.leveled_focus = true;
     p.blob = Tri::Maybe;
     p.w[W_INGEST] = 3;
     p.w[W_DROP_RANGE] = 3;
